@@ -46,7 +46,7 @@ def len_sources(b, e, out=None, depth=0):
             term = e[3] if isinstance(e[3], dict) else None
             nm = render(b.sexpr(term['args'][0])) if term else render(e[2][0])[:30]
             # identity of the measured string: the user variable it lives in (falls back to the defining expression)
-            out.append((nm if nm.startswith('$') else render(e[2][0]), nm.lstrip('$')))
+            out.append((nm if nm.startswith('$') else render(e[2][0]), nm.lstrip('$'), render(e[2][0])))
             return out
         for a in e[2]:
             len_sources(b, a, out, depth + 1)
@@ -88,13 +88,15 @@ def n1_provenance(ctx):
             s_deep = s_name if s_name.startswith('$') else render(chars[0][2][0])
             s_name = s_name.lstrip('$')
             srcs = len_sources(b, b.expr(t['args'][1]))
-            foreign = sorted(set(nm for deep, nm in srcs if deep != s_deep))
+            foreign = sorted(set((nm, what) for deep, nm, what in srcs if deep != s_deep))
             if foreign:
-                ctx.finding('N1', '%s/nth/%s<-len(%s)' % (fn_key(b.path), s_name, '+'.join(foreign)),
-                            '%s indexes the characters of `%s` with a position derived from the length of another string (`%s`): the two are independent renderings and can differ in length' % (
-                                fn_key(b.path), s_name, ', '.join(foreign)), site=t['loc'])
+                # the key names what the foreign string is a rendering *of*, so a change of that value is a new finding
+                what = '+'.join(re.sub(r'[^A-Za-z0-9_().,*]', '', re.sub(r'\b(f64|num|tools|ToString|alloc|core|string)::', '', w)) for _, w in foreign)
+                ctx.finding('N1', '%s/nth/%s<-len(%s=%s)' % (fn_key(b.path), s_name, '+'.join(nm for nm, _ in foreign), what[:110]),
+                            '%s indexes the characters of `%s` with a position derived from the length of another string (`%s` = %s): the two are independent renderings and can differ in length' % (
+                                fn_key(b.path), s_name, ', '.join(nm for nm, _ in foreign), '; '.join(w for _, w in foreign)[:160]), site=t['loc'])
             else:
-                ctx.ok('N1', '%s: %s.chars().nth(i), i bounded by %s' % (fn_key(b.path), s_name, sorted(set(nm for _, nm in srcs)) or 'no length'), 'provenance', site=t['loc'])
+                ctx.ok('N1', '%s: %s.chars().nth(i), i bounded by %s' % (fn_key(b.path), s_name, sorted(set(nm for _, nm, _w in srcs)) or 'no length'), 'provenance', site=t['loc'])
         for i in b.normal_blocks:
             for s in b.blocks[i]['stmts']:
                 if s['k'] == 'assign' and s['rv'] == 'ref' and any(isinstance(pe, dict) and 'index' in pe for pe in s['ops'][0].get('copy', s['ops'][0].get('move', {})).get('proj', [])):
